@@ -33,7 +33,56 @@ class Term:
         self.kind, self.node, self.arg = kind, node, arg
 
 
-def traverse_once(api, t, ids, pids, start, mode, as_np, hook=None):
+CB_KINDS = ("plain", "varargs", "node-then-varargs", "callable-object", "bound-method", "partial", "extra-default", "keyword-only-extra", "consuming")
+
+
+class _Obj:
+    def __init__(self, fn):
+        self.fn = fn
+
+    def __call__(self, x, v):
+        return self.fn(x, v)
+
+    def method(self, x, v):
+        return self.fn(x, v)
+
+
+def package(fn, kind, bad):
+    """The same callback written the ways callers write callbacks ('for all enter/leave callbacks')."""
+    import functools
+
+    if kind in ("plain", "consuming"):
+        return fn
+    if kind == "varargs":
+        def cb(*args):
+            if len(args) != 2:
+                bad.append(f"callback called with {len(args)} positional arguments, not (node, value)")
+                return fn(args[0], None if len(args) < 2 else args[1])
+            return fn(*args)
+        return cb
+    if kind == "node-then-varargs":
+        def cb2(x, *rest):
+            if len(rest) != 1:
+                bad.append(f"callback called with {1 + len(rest)} positional arguments, not (node, value)")
+                return fn(x, rest[0] if rest else None)
+            return fn(x, rest[0])
+        return cb2
+    if kind == "callable-object":
+        return _Obj(fn)
+    if kind == "bound-method":
+        return _Obj(fn).method
+    if kind == "partial":
+        return functools.partial(lambda tag, x, v: fn(x, v), "tag")
+    if kind == "extra-default":
+        return lambda x, v, _unused=None: fn(x, v)
+    if kind == "keyword-only-extra":
+        def cb3(x, v, *, _unused=None):
+            return fn(x, v)
+        return cb3
+    raise ValueError(kind)
+
+
+def traverse_once(api, t, ids, pids, start, mode, as_np, hook=None, cbkind="plain"):
     """Run one traversal on the real code; returns (log, returned value).  `hook(kind, node)` is called at the start of every
     callback (used for re-entrant and aborting callbacks)."""
     from swcgeom.core import Tree
@@ -67,13 +116,16 @@ def traverse_once(api, t, ids, pids, start, mode, as_np, hook=None):
             cv = list(cv)
         term = Term("L", i, tuple(cv))
         log.append(("leave", i, list(cv), term))
+        if cbkind == "consuming":  # the list handed to a callback is the callback's: it may use it up
+            cv.append(Term("junk", i, None))
+            cv.reverse()
         return term
 
     kw = {}
     if mode in ("enter", "both"):
-        kw["enter"] = enter
+        kw["enter"] = package(enter, cbkind, bad)
     if mode in ("leave", "both"):
-        kw["leave"] = leave
+        kw["leave"] = package(leave, cbkind, bad)
     s = np.int32(start) if as_np else int(start)
     if api == "topology":
         ret = traverse((ids, pids), root=s, **kw)
@@ -192,6 +244,33 @@ def check_on(t, p, limit, R, tag):
                                f"traversal:{api}" + (":" + tag if tag else ""))
         R.outcome(len(ref.descendants_or_self(p, start)), len(ch[start]))
     R.check(build.snapshot(t) == snap, "input-modified", f"p={p}")
+
+
+def check_kinds(case, R):
+    """Every way of writing the callbacks (CB_KINDS) x every tree x every start x mode x API; two traversals per kind so that
+    whatever a callback did to the list it was given cannot reach a later call."""
+    p = list(case[0])
+    n = len(p)
+    if n < 2:
+        R.trivial()
+    R.state(p)
+    t = build.make_tree(p)
+    ch = ref.children(p)
+    ids, pids = t.id().copy(), t.pid().copy()
+    for kind in CB_KINDS[1:]:
+        for start in range(n):
+            for mode in MODES:
+                for api in APIS:
+                    for rep in (0, 1):
+                        ok, res = R.impl(f"traverse:{api}", traverse_once, api, t, ids, pids, start, mode, False, None, kind)
+                        if not ok:
+                            continue
+                        log, ret, bad = res
+                        why = judge(p, ch, start, mode, log, ret, bad)
+                        if why:
+                            R.fail("traversal:callback-kind", f"callbacks written as '{kind}' p={p} start={start} mode={mode} api={api} (traversal #{rep + 1}): {why}",
+                                   f"traversal:callback-kind:{kind}:{api}")
+    R.outcome(n, len(ch[0]))
 
 
 def big_tree(kind, n):
@@ -432,6 +511,8 @@ def spaces(tier, seed):
                             yield (p, api, kind, v)
 
     return [
+        Space.of("callback-kinds", lambda: ((p,) for m in range(1, (5 if tier == "quick" else 6) + 1) for p in S.labelled_trees(m)), check_kinds,
+                 bounds={"LT_max_nodes": 5 if tier == "quick" else 6, "callback_kinds": list(CB_KINDS), "starts": "all", "modes": MODES, "apis": APIS, "traversals_per_kind": 2}),
         Space.of("reentrant-callbacks", gen_reentrant, check_reentrant,
                  bounds={"LT_max_nodes": re_hi, "outer": "every start, both callbacks", "launch_point": "every (enter|leave, node) of the outer subtree",
                          "inner": "same tree from every start node; a fixed other tree", "apis": list(APIS)}),
